@@ -747,7 +747,7 @@ static int _parse_inline(qaconf_t *qaconf, FILE *fp, uint8_t flags,
                         break;
                     }
                 } else if (*wp2 == '\\') {
-                    if (qtmark > 0) {
+                    if (qtmark > 0 && *(wp2 + 1) != '\0') {
                         size_t wordlen = wp2 - wp1;
                         if (wordlen > 0)
                             memmove(wp1 + 1, wp1, wordlen);
@@ -773,7 +773,7 @@ static int _parse_inline(qaconf_t *qaconf, FILE *fp, uint8_t flags,
             DEBUG("  argv[%d]=%s", cbdata->argc - 1, wp1);
 
             // For quoted string, this case can be happened.
-            if (*wp2 == '\0') {
+            if (doneparsing == false && *wp2 == '\0') {
                 doneparsing = true;
             }
         }
